@@ -2,6 +2,8 @@
 # usage: run_seeded.sh <seed name> <check id>...   — applies seeded/<name>/patch.diff to /repo, runs the checks (quick), reverts.
 # Evidence of these runs goes to evidence/<id>.mutant-<name>.partial.json (git-ignored); the committed evidence is untouched.
 name="$1"; shift
+# one user of /repo's working tree at a time (evidence sweeps take the same lock)
+mkdir -p /var/tmp/probe; exec 9>/var/tmp/probe/repo.lock; flock 9
 cd /repo || exit 2
 if ! git diff --quiet; then echo "/repo has local changes; refusing"; exit 2; fi
 git apply "/verif/seeded/$name/patch.diff" || { echo "patch does not apply"; exit 2; }
